@@ -8,6 +8,7 @@ import (
 	"io"
 	"math"
 	"strings"
+	"sync"
 	"testing"
 
 	bip39 "github.com/islishude/bip39"
@@ -268,11 +269,16 @@ var c07InprocCheck = register("C07", "c07.inproc", func(c *inprocCase) error {
 	var ones [5][256]int
 	var count [5]int
 	seen := map[string]bool{}
+	last, lastLang := "", ref.English
 	for round := 0; round < c.Rounds; round++ {
 		for _, n := range ref.Counts {
 			for _, l := range allLangs() {
 				tee.buf.Reset()
+				if last != "" {
+					implCheck(last, implLang[lastLang]) // a validation between two generations
+				}
 				got, err, p := implNew(n, implLang[l])
+				last, lastLang = got, l
 				need := n / 3 * 4
 				if p != nil || err != nil {
 					return failf("C07 tee-failed", "NewMnemonic(%d, %s) with the default source: err=%v panic=%v", n, l, err, p)
@@ -322,4 +328,69 @@ func TestC07_InProcess(t *testing.T) {
 	cov.Sample("c07.inproc", c)
 	judge(t, "c07.inproc", c07InprocCheck, c)
 	_ = strings.Join
+}
+
+// c07.concurrent: default-source NewMnemonic from many goroutines at once; every output must be a
+// valid mnemonic of the requested size and no output may repeat (a scratch buffer shared between
+// overlapping calls produces duplicates or checksum-invalid mixtures).
+type concDefaultCase struct {
+	Goroutines int `json:"goroutines"`
+	Calls      int `json:"calls"`
+}
+
+var c07ConcCheck = register("C07", "c07.concurrent", func(c *concDefaultCase) error {
+	type out struct {
+		n int
+		l ref.Lang
+		s string
+		e error
+		p error
+	}
+	res := make([][]out, c.Goroutines)
+	var wg sync.WaitGroup
+	start := make(chan struct{})
+	for g := 0; g < c.Goroutines; g++ {
+		wg.Add(1)
+		go func(g int) {
+			defer wg.Done()
+			<-start
+			for i := 0; i < c.Calls; i++ {
+				n := ref.Counts[(i+g)%5]
+				l := ref.Lang((i/5 + g) % int(ref.NumLangs))
+				s, e, p := implNew(n, implLang[l])
+				res[g] = append(res[g], out{n, l, s, e, p})
+			}
+		}(g)
+	}
+	close(start)
+	wg.Wait()
+	seen := map[string]bool{}
+	for g := range res {
+		for i, o := range res[g] {
+			op1 := &op{Kind: "new", N: int64(o.n), Lang: int64(implLang[o.l])}
+			r := obs{Str: text(o.s)}
+			r.Err, r.ErrMsg = classifyErr2(o.e)
+			if o.p != nil {
+				r.Panic = o.p.Error()
+			}
+			if err := modelCheck(op1, r); err != nil {
+				return failf("C07 concurrent "+sigOf(err), "goroutine %d call %d with %d goroutines calling at once: %v", g, i, c.Goroutines, err)
+			}
+			if seen[o.s] {
+				return failf("C07 concurrent repeated-output", "with %d goroutines calling at once, %s returned %q twice", c.Goroutines, opString(op1), o.s)
+			}
+			seen[o.s] = true
+		}
+	}
+	return nil
+})
+
+func TestC07_Concurrent(t *testing.T) {
+	cov.Rule(c07Rule + " || concurrent variant: 16 goroutines draw from the default source at once; every output must be valid and none may repeat")
+	c := &concDefaultCase{Goroutines: 16, Calls: pick(1500, 20000)}
+	cov.Eval(c.Goroutines * c.Calls)
+	cov.Class("concurrent-default-source")
+	cov.NonTrivial("c07.concurrent", []byte(fmt.Sprint(c.Goroutines, c.Calls)))
+	cov.NonTrivial("c07.concurrent", []byte("b"))
+	judge(t, "c07.concurrent", c07ConcCheck, c)
 }
